@@ -587,7 +587,7 @@ static bool P_walk(void) { bool ok = g_nvis == NVERT; size_t expect = 0; unsigne
         f_rec = Fn(B, rf"void {CLS_B}<T>::for_each_vertex_rec\(F&&f, std::size_t base, int dim\)", "for_each_vertex_rec", "",
                    scopes=[CLS_B], sig_subs=SIG_SUBS + [(r"F&&f, ", ""), (r"template <class F>", "", 0)],
                    subs=vec_subs([(r"for_each_vertex_rec\(f, ", "for_each_vertex_rec("), (r"\bf\(", "visit_stub(")]),
-                   canary=(r"sizes\.a\[dim\] \+ 1", "sizes.a[0] + 1"))
+                   canary=(r"visit_stub\(base \+ 2 \* i\)", "visit_stub(base + i)"))
         f_top = Fn(B, r"template <class F> void for_each_vertex\(F&&f\)", "for_each_vertex", """
 __CPROVER_requires(shape_ok() && g_nvis == 0)
 __CPROVER_ensures(P_walk())
